@@ -279,11 +279,41 @@ def _killed_before(fn, name, guarded_def, reader, guarded_ids):
 PURE_CALLS = {"format", "len", "str", "int", "float", "abs", "min", "max", "round", "repr", "get_nb_blocks", "get_name", "join", "sum"}
 
 
+def _local_pure_function(call):
+    """the callee is a function nested in the enclosing function whose body only builds and returns a value (no store outside its locals, no call
+    outside the pure ones): calling it under a verbosity guard changes nothing but what is printed"""
+    if not isinstance(call.func, ast.Name):
+        return False
+    n0 = call
+    encl = None
+    for _ in range(60):
+        n0 = getattr(n0, "_parent", None)
+        if n0 is None:
+            break
+        if isinstance(n0, ast.FunctionDef):
+            encl = n0
+            break
+    if encl is None:
+        return False
+    defs = [d0 for d0 in ast.walk(encl) if isinstance(d0, ast.FunctionDef) and d0 is not encl and d0.name == call.func.id]
+    if len(defs) != 1:
+        return False
+    d0 = defs[0]
+    for x in ast.walk(d0):
+        if isinstance(x, (ast.Global, ast.Nonlocal, ast.Delete, ast.AugAssign)) and not (isinstance(x, ast.AugAssign) and isinstance(x.target, ast.Name)):
+            return False
+        if isinstance(x, ast.Assign) and not all(isinstance(t0, ast.Name) for t0 in x.targets):
+            return False
+        if isinstance(x, ast.Call) and call_name(x) not in PURE_CALLS and not (dotted(x.func) or "").startswith("np."):
+            return False
+    return True
+
+
 def _impure_args(expr):
     for c in ast.walk(expr):
         if isinstance(c, ast.Call) and c is not expr:
             nm = call_name(c)
-            if nm not in PURE_CALLS and not (dotted(c.func) or "").startswith("np."):
+            if nm not in PURE_CALLS and not (dotted(c.func) or "").startswith("np.") and not _local_pure_function(c):
                 return "evaluates the call %s() only when verbose" % nm
     return None
 
